@@ -101,6 +101,7 @@ type vfC11Case struct {
 	Part  string     `json:"part"`
 	Shape vfC11Shape `json:"shape"`
 	Limit int        `json:"limit"`
+	Piggy bool       `json:"piggy,omitempty"` // a retried PRUNE and pending IHAVE gossip wait to be piggybacked by sendRPC
 }
 
 func vfC11Build(s vfC11Shape) *RPC {
@@ -330,8 +331,8 @@ func vfC11SplitOne(r *vfRun, shape vfC11Shape, limit int, judge bool) string {
 
 // ---- part 2: through sendRPC into a real queue
 
-func vfC11SendOne(r *vfRun, shape vfC11Shape, limit int, judge bool) (obs string) {
-	c := vfC11Case{Part: "send", Shape: shape, Limit: limit}
+func vfC11SendOne(r *vfRun, shape vfC11Shape, limit int, piggy bool, judge bool) (obs string) {
+	c := vfC11Case{Part: "send", Shape: shape, Limit: limit, Piggy: piggy}
 	p := vfBubble(r.t, func() {
 		w := newVfWorld()
 		n, err := vfNewNode(w, "N", "gossip", WithMessageSignaturePolicy(StrictNoSign), WithMaxMessageSize(limit), WithPeerOutboundQueueSize(256),
@@ -354,6 +355,30 @@ func vfC11SendOne(r *vfRun, shape vfC11Shape, limit int, judge bool) (obs string
 		n.eval(func() { n.ps.peers[f.ident.id].Push(filler, false) })
 		synctest.Wait()
 		var queued []*RPC
+		expected := vfC11Build(shape)
+		if piggy {
+			// what sendRPC piggybacks: a PRUNE kept for retry (for a topic without mesh it is not stale) and IHAVE gossip
+			zz, bo := "zz", uint64(7)
+			prune := &pb.ControlPrune{TopicID: &zz, Backoff: &bo}
+			ihave := &pb.ControlIHave{TopicID: &zz, MessageIDs: []string{"piggy-id-1", "piggy-id-2"}}
+			// (pending gossip REPLACES the IHAVEs of the outgoing RPC -- piggybackGossip assigns -- which is harmless
+			// only because no caller of sendRPC passes IHAVEs while gossip is pending for the peer: flush() removes the
+			// entry before sending it.  The harness therefore plants gossip only under RPCs without IHAVE.)
+			withGossip := shape.Ihave == 0
+			n.eval(func() {
+				n.gs.control[f.ident.id] = &pb.ControlMessage{Prune: []*pb.ControlPrune{prune}}
+				if withGossip {
+					n.gs.gossip[f.ident.id] = []*pb.ControlIHave{ihave}
+				}
+			})
+			if expected.Control == nil {
+				expected.Control = &pb.ControlMessage{}
+			}
+			expected.Control.Prune = append(expected.Control.Prune, prune)
+			if withGossip {
+				expected.Control.Ihave = append(expected.Control.Ihave, ihave)
+			}
+		}
 		n.eval(func() {
 			n.gs.sendRPC(f.ident.id, vfC11Build(shape), false)
 			q := n.ps.peers[f.ident.id]
@@ -369,7 +394,7 @@ func vfC11SendOne(r *vfRun, shape vfC11Shape, limit int, judge bool) (obs string
 				}
 			}
 		}
-		nt := vfC11Judge(vfC11Build(shape), queued, limit, func(fp, msg string) {
+		nt := vfC11Judge(expected, queued, limit, func(fp, msg string) {
 			// through sendRPC oversized fragments are legitimately absent (dropped and reported)
 			if strings.HasPrefix(fp, "c11:oversized-multi") {
 				return
@@ -444,10 +469,22 @@ func init() {
 					}
 					for _, limit := range limits {
 						r.mark(vfC11Case{Part: "send", Shape: shape, Limit: limit})
-						obs := vfC11SendOne(r, shape, limit, true)
+						obs := vfC11SendOne(r, shape, limit, false, true)
 						r.res.Executions++
 						r.count("sendrpc_cases", 1)
 						r.outcome(fmt.Sprintf("send|%d|%s", limit, obs))
+					}
+					// the same with control waiting to be piggybacked: the RPC grows inside sendRPC, so limits a few
+					// bytes above its own size are the interesting ones
+					for limit := size - 2; limit <= size+70; limit += 3 {
+						if limit <= 5 {
+							continue
+						}
+						r.mark(vfC11Case{Part: "send", Shape: shape, Limit: limit, Piggy: true})
+						obs := vfC11SendOne(r, shape, limit, true, true)
+						r.res.Executions++
+						r.count("sendrpc_cases_with_piggybacked_control", 1)
+						r.outcome(fmt.Sprintf("sendpiggy|%d|%s", limit, obs))
 					}
 				}
 				r.unmark()
@@ -460,7 +497,7 @@ func init() {
 				return
 			}
 			if c.Part == "send" {
-				fmt.Println(vfC11SendOne(r, c.Shape, c.Limit, true))
+				fmt.Println(vfC11SendOne(r, c.Shape, c.Limit, c.Piggy, true))
 			} else {
 				fmt.Println(vfC11SplitOne(r, c.Shape, c.Limit, true))
 			}
